@@ -626,6 +626,111 @@ class EstimateDt(_Base):
         return obs
 
 
+def _z3_vars(e, acc):
+    if z3.is_const(e) and e.decl().kind() == z3.Z3_OP_UNINTERPRETED:
+        acc[e.get_id()] = e
+    for c in e.children():
+        _z3_vars(c, acc)
+    return acc
+
+
+def _normal(p):
+    """exact normal form of one real part: a rational constant if z3's simplifier (sum-of-monomials) reduces the term to one"""
+    if isinstance(p, Fraction):
+        return p
+    e = z3.simplify(sym.zr(p), som=True)
+    if z3.is_rational_value(e):
+        return Fraction(e.numerator_as_long(), e.denominator_as_long())
+    return p
+
+
+class _normalising:
+    """context manager: results of ST arithmetic whose term reduces to a rational constant become that constant
+    (exact rewriting), so that `(start + T) - start` is the number T and code that samples LAGS runs on numbers"""
+
+    def __enter__(self):
+        self.old = tsym._wrap
+
+        def wrap(r):
+            if isinstance(r, S):
+                re, im = _normal(r.re), _normal(r.im)
+                if isinstance(re, Fraction) and isinstance(im, Fraction):
+                    return float(re) if im == 0 else complex(float(re), float(im))
+                return tsym.ST(re, im)
+            return r
+        tsym._wrap = wrap
+
+    def __exit__(self, *a):
+        tsym._wrap = self.old
+
+
+class _LagRecorder:
+    """stationary bath autocorrelation C(lag): records the argument; the value is computed from the argument itself when it
+    is a number, and at the witness point (all symbols = 1/4) when it still depends on the time origin (then the trace obligation fails anyway)"""
+
+    def __init__(self):
+        self.calls = []
+
+    def __call__(self, t):
+        self.calls.append(t)
+        if isinstance(t, S):
+            e = sym.zr(t.re) if not isinstance(t.re, Fraction) else None
+            if e is None:
+                v = float(t.re)
+            else:
+                vs = _z3_vars(e, {})
+                r = z3.simplify(z3.substitute(e, *[(x, z3.RealVal("1/4")) for x in vs.values()]))
+                v = float(Fraction(r.numerator_as_long(), r.denominator_as_long()))
+        else:
+            v = float(t)
+        return complex(np.exp(-v * v) * (1 - 0.3j * v))
+
+
+class EstimateDtBath(_Base):
+    """_estimate_dt_dkmax_from_bath (guess_tempo_parameters / tempo_compute(parameters=None)): the bath autocorrelation is a
+    function of the LAG only, so the arguments at which it is sampled, and the guessed dt / dkmax, must not depend on the origin"""
+    functions = ("oqupy/tempo.py:_estimate_dt_dkmax_from_bath", "oqupy/tempo.py:_analyse_correlation")
+    stubs = ("bath.correlations.correlation -> recorder of its argument (value from the argument; witness value if the argument depends on the origin)",
+             "np.linspace -> its documented contract (num evenly spaced samples including both end points)",
+             "ST arithmetic: terms that z3's simplifier reduces to a rational constant are replaced by it (exact)") + _Base.stubs[2:]
+    max_paths = 8
+
+    def __init__(self, span):
+        self.span = span
+        self.id = "H1/_estimate_dt_dkmax_from_bath/span%s" % span
+        self.bounds = {"span": str(span), "tolerance": "1e-2"}
+
+    @property
+    def env(self):
+        e = _env()
+        proxy = venv.NpProxy(dict(fpx.NP_OVERRIDES, linspace=_sym_linspace))
+        e["extra"]["oqupy.tempo.np"] = proxy
+        return e
+
+    @guard_library_exceptions
+    def run(self, inp):
+        start, tau, _ = self.times(inp)
+        span = Fraction(self.span) if inp.mode != "real" else float(self.span)
+        res, traces = [], []
+        import warnings
+        with exact_floats(), _normalising():
+            for shift in (_zero(inp), tau):
+                rec = _LagRecorder()
+
+                class _B:
+                    class correlations:
+                        correlation = rec
+                with warnings.catch_warnings():
+                    warnings.simplefilter("ignore")
+                    s0 = start + shift
+                    res.append(tempo_mod._estimate_dt_dkmax_from_bath(_B, s0, s0 + span, 1e-2))
+                traces.append({"correlation": rec.calls})
+        obs = _trace_obs(*traces)
+        obs.append(Ob.eq("guessed dt unchanged", res[1][0], res[0][0], key="estimate"))
+        obs.append(Ob.holds("guessed dkmax unchanged", res[1][1] == res[0][1], key="estimate"))
+        return obs
+
+
 def _norm_concrete(m):
     c = _to_complex(m)
     v = float(np.max(np.abs(np.linalg.eigvalsh(np.conj(c.T) @ c))))
@@ -921,7 +1026,7 @@ class ParseTimesFloat(FCase):
 def cases(tier):
     cs = [Propagators("sample"), Propagators("integrate"), FieldPropagators("sample"), FieldPropagators("integrate"),
           ComputeDynamics(), ComputeDynamicsWithField(), ComputeDynamicsWithFieldControls(), WithFieldControlSelection(), Correlations("compute_correlations_nt"), Correlations("compute_correlations", "anti"),
-          EstimateDt("TimeDependentSystem"), EstimateDt("TimeDependentSystemWithField"),
+          EstimateDt("TimeDependentSystem"), EstimateDt("TimeDependentSystemWithField"), EstimateDtBath(2), EstimateDtBath(5),
           MeanFieldTempoField(), TempoLayer("Tempo"), TempoLayer("MeanFieldTempo"),
           PtTebdTimes(), ControlTimes(1, 2), ControlTimes(1, 2, Fraction(1, 10)), ParseTimes("float"), ParseTimes("interval"), ParseTimesFloat()]
     if tier == "thorough":
